@@ -57,8 +57,7 @@ theorem C01_net_of_project_equations_gap_pe_witness (alg : Alg) (halg : alg ≠ 
       toVec (toProblem npO).m a.r = (![3 / 11, 6 / 11, -2 / 11] : Fin 3 → ℝ) ∧ a.pvv = 1 / 22 := by
   refine ⟨peO, ?_⟩
   obtain ⟨a, ha⟩ := npG_answers [1] (Or.inl rfl) alg halg
-  have hna : ∀ ob ∈ revisedObs uO.net, NoAlias ob := robsO_noalias .constrained .free
-  have hls := C01_net_of_project_equations_gap realTrig netWobs npO uO peO hna (npG_m0 [1]) (PcG [1]) (npG_sigma_inv [1])
+  have hls := C01_net_of_project_equations_gap realTrig netWobs npO uO peO (npG_m0 [1]) (PcG [1]) (npG_sigma_inv [1])
     C01_gap_thresholds_default (npG_rankGap [1]) alg halg a ha
   obtain ⟨hh, hp⟩ := npG_prepare [1]
   obtain ⟨W, hW, hinj, -, -⟩ := C01_net_prepare C01_gap2_isSqrt npO (npG_dims [1]) (npG_rows [1]) (npG_m0 [1])
@@ -81,14 +80,13 @@ theorem C01_pe_matrix_is_jacobian_pe_witness (i : Fin (toProblem npO).m) (j : Fi
       ((∀ rc ∈ ob.kind.roles, (sigmaOf uO.net).isFree (ob.name rc.1 rc.2) = true →
           uO.net.idx.get (ob.name rc.1 rc.2) ≠ j.val + 1) → (toProblem npO).A i j = 0) := by
   have hpe : @projectEquations ℝ instTrigScalarReal netWobs = .ok (npO, uO) := by rw [← trig_eq]; exact peO
-  have hna : ∀ ob ∈ revisedObs uO.net, NoAlias ob := robsO_noalias .constrained .free
   have hi : i.val < (revisedObs uO.net).length := i.isLt
   refine ⟨(revisedObs uO.net)[i.val], List.getElem?_eq_getElem hi, ?_⟩
   have hk : ((revisedObs uO.net)[i.val]).kind = .h_diff := by
     have : i.val = 0 ∨ i.val = 1 ∨ i.val = 2 := by have : i.val < 3 := i.isLt; omega
     rcases i with ⟨v, hv⟩
     rcases this with h | h | h <;> (simp only at h; subst h; rfl)
-  exact C01_pe_matrix_is_jacobian netWobs npO uO hpe hna i _ (List.getElem?_eq_getElem hi)
+  exact C01_pe_matrix_is_jacobian netWobs npO uO hpe i _ (List.getElem?_eq_getElem hi)
     (by rw [hk]; trivial) j
 
 end witness
